@@ -375,6 +375,7 @@ type engEnv struct {
 	fs    *parsley.FileSet
 	rules []*Term
 	root  *Term
+	early *text.Reader
 }
 
 func (e *engEnv) fresh(memo bool) (*parsley.Context, *engStats, parsley.Parser, *text.Reader) {
@@ -386,7 +387,10 @@ func (e *engEnv) fresh(memo bool) (*parsley.Context, *engStats, parsley.Parser, 
 		b.rules[i] = parser.Func(b.build(rt).Parse)
 	}
 	root := b.build(e.root)
-	r := text.NewReader(e.file)
+	r := e.early
+	if r == nil {
+		r = text.NewReader(e.file)
+	}
 	ctx := parsley.NewContext(e.fs, r)
 	return ctx, st, root, r
 }
@@ -433,6 +437,12 @@ func newEngEnv(t *Term) *engEnv {
 	raw := t.Args[2].Bytes()
 	offset := t.Args[3].Int()
 	f := text.NewFile("f", raw)
+	// a reader may be created before its file is placed in a file set (FileSet.AddFile assigns the base
+	// offset afterwards, as in the library's own JSON benchmark): every second case does so
+	var early *text.Reader
+	if (len(raw)+offset)%2 == 0 {
+		early = text.NewReader(f)
+	}
 	var fs *parsley.FileSet
 	if offset <= 1 {
 		fs = parsley.NewFileSet(f)
@@ -445,7 +455,7 @@ func newEngEnv(t *Term) *engEnv {
 	}
 	engData = bytes.Replace(raw, []byte("\r\n"), []byte("\n"), -1) // what NewFile keeps
 	engOffset = int(f.Pos(0))
-	return &engEnv{file: f, fs: fs, rules: t.Args[0].List(), root: t.Args[1]}
+	return &engEnv{file: f, fs: fs, rules: t.Args[0].List(), root: t.Args[1], early: early}
 }
 
 // Eng rules root data offset flags
